@@ -326,7 +326,39 @@ func registerIntrinsics(e *Engine) {
 		e.arrSet(s.arr, s.off+j, x)
 		return Value{}
 	}
-	in[v("Yield")] = func(e *Engine, a []Value, c *callCtx) Value { return Value{} }
+	in[v("Yield")] = func(e *Engine, a []Value, c *callCtx) Value {
+		e.schedPoint("yield")
+		return Value{}
+	}
+	in[v("Go")] = func(e *Engine, a []Value, c *callCtx) Value {
+		e.spawn(a[0], nil)
+		e.raceOn = true
+		return Value{}
+	}
+	in[v("Join")] = func(e *Engine, a []Value, c *callCtx) Value {
+		th := e.th
+		allDone := true
+		for _, o := range e.threads {
+			if o != th && !o.done {
+				allDone = false
+			}
+		}
+		if !allDone {
+			th.waitJoin = true
+			next := e.pickThread("join")
+			e.switchTo(next)
+			panic(retrySignal{})
+		}
+		th.waitJoin = false
+		for _, o := range e.threads {
+			if o != th {
+				th.vc = th.vc.join(o.vc)
+			}
+		}
+		th.vc[th.id]++
+		e.raceOn = false
+		return Value{}
+	}
 	in[v("Logf")] = func(e *Engine, a []Value, c *callCtx) Value { return Value{} }
 
 	// ---- sync ----
@@ -343,11 +375,19 @@ func registerIntrinsics(e *Engine) {
 	}
 	in["(*sync.Mutex).Lock"] = func(e *Engine, a []Value, c *callCtx) Value {
 		st := lockState(a[0], 0)
+		e.schedPoint("Mutex.Lock")
 		if st.v.N != 0 {
-			e.lockFailure("self-deadlock: Lock of a mutex already held", c)
+			if !e.multi() || int(st.v.N) == e.th.id+1 {
+				e.lockFailure("self-deadlock: Lock of a mutex already held by this thread", c)
+			}
+			e.blockOn(st, 0, "Mutex.Lock")
 		}
-		e.setLeaf(st, intV(1))
+		e.th.blockedOn = nil
+		e.setLeaf(st, intV(uint64(e.th.id+1)))
 		e.ps.locksHeld++
+		if vc, ok := e.race.locks[st]; ok {
+			e.th.vc = e.th.vc.join(vc)
+		}
 		return Value{}
 	}
 	in["(*sync.Mutex).TryLock"] = func(e *Engine, a []Value, c *callCtx) Value {
@@ -355,8 +395,11 @@ func registerIntrinsics(e *Engine) {
 		if st.v.N != 0 {
 			return boolV(false)
 		}
-		e.setLeaf(st, intV(1))
+		e.setLeaf(st, intV(uint64(e.th.id+1)))
 		e.ps.locksHeld++
+		if vc, ok := e.race.locks[st]; ok {
+			e.th.vc = e.th.vc.join(vc)
+		}
 		return boolV(true)
 	}
 	in["(*sync.Mutex).Unlock"] = func(e *Engine, a []Value, c *callCtx) Value {
@@ -365,47 +408,76 @@ func registerIntrinsics(e *Engine) {
 			e.goPanicStr("fatal error: sync: unlock of unlocked mutex")
 			panic(goPanicSignal{})
 		}
+		e.setLockVC(st, e.th.vc)
+		e.th.vc[e.th.id]++
 		e.setLeaf(st, intV(0))
 		e.ps.locksHeld--
 		return Value{}
 	}
 	// RWMutex{w Mutex; writerSem, readerSem uint32; readerCount, readerWait atomic.Int32}
 	in["(*sync.RWMutex).Lock"] = func(e *Engine, a []Value, c *callCtx) Value {
-		w := lockState(a[0], 0, 0)
-		rc := lockState(a[0], 3, 1)
+		rw := lockState(a[0])
+		w := rw.kids[0].kids[0]
+		rc := rwReaders(rw)
+		e.schedPoint("RWMutex.Lock")
 		if w.v.N != 0 || rc.v.N != 0 {
-			e.lockFailure("self-deadlock: RWMutex.Lock while held", c)
+			if !e.multi() || int(w.v.N) == e.th.id+1 {
+				e.lockFailure("self-deadlock: RWMutex.Lock while held", c)
+			}
+			e.blockOn(rw, 1, "RWMutex.Lock")
 		}
-		e.setLeaf(w, intV(1))
+		e.th.blockedOn = nil
+		e.setLeaf(w, intV(uint64(e.th.id+1)))
 		e.ps.locksHeld++
+		if vc, ok := e.race.locks[rw]; ok {
+			e.th.vc = e.th.vc.join(vc)
+		}
+		if vc, ok := e.race.locks[rc]; ok {
+			e.th.vc = e.th.vc.join(vc)
+		}
 		return Value{}
 	}
 	in["(*sync.RWMutex).Unlock"] = func(e *Engine, a []Value, c *callCtx) Value {
-		w := lockState(a[0], 0, 0)
+		rw := lockState(a[0])
+		w := rw.kids[0].kids[0]
 		if w.v.N == 0 {
 			e.goPanicStr("fatal error: sync: Unlock of unlocked RWMutex")
 			panic(goPanicSignal{})
 		}
+		e.setLockVC(rw, e.th.vc)
+		e.th.vc[e.th.id]++
 		e.setLeaf(w, intV(0))
 		e.ps.locksHeld--
 		return Value{}
 	}
 	in["(*sync.RWMutex).RLock"] = func(e *Engine, a []Value, c *callCtx) Value {
-		w := lockState(a[0], 0, 0)
-		rc := lockState(a[0], 3, 1)
+		rw := lockState(a[0])
+		w := rw.kids[0].kids[0]
+		rc := rwReaders(rw)
+		e.schedPoint("RWMutex.RLock")
 		if w.v.N != 0 {
-			e.lockFailure("self-deadlock: RWMutex.RLock while write-locked", c)
+			if !e.multi() || int(w.v.N) == e.th.id+1 {
+				e.lockFailure("self-deadlock: RWMutex.RLock while write-locked", c)
+			}
+			e.blockOn(rw, 2, "RWMutex.RLock")
 		}
+		e.th.blockedOn = nil
 		e.setLeaf(rc, intV(rc.v.N+1))
 		e.ps.locksHeld++
+		if vc, ok := e.race.locks[rw]; ok {
+			e.th.vc = e.th.vc.join(vc)
+		}
 		return Value{}
 	}
 	in["(*sync.RWMutex).RUnlock"] = func(e *Engine, a []Value, c *callCtx) Value {
-		rc := lockState(a[0], 3, 1)
+		rw := lockState(a[0])
+		rc := rwReaders(rw)
 		if rc.v.N == 0 {
 			e.goPanicStr("fatal error: sync: RUnlock of unlocked RWMutex")
 			panic(goPanicSignal{})
 		}
+		e.setLockVC(rc, e.race.locks[rc].join(e.th.vc))
+		e.th.vc[e.th.id]++
 		e.setLeaf(rc, intV(rc.v.N-1))
 		e.ps.locksHeld--
 		return Value{}
@@ -471,21 +543,21 @@ func registerIntrinsics(e *Engine) {
 			w = 32
 		}
 		ww := w
-		in["sync/atomic.Load"+ty] = func(e *Engine, a []Value, c *callCtx) Value { return e.loadVia(a[0]) }
-		in["sync/atomic.Store"+ty] = func(e *Engine, a []Value, c *callCtx) Value { e.storeVia(a[0], a[1]); return Value{} }
+		in["sync/atomic.Load"+ty] = func(e *Engine, a []Value, c *callCtx) Value { return e.atomicLoad(a[0]) }
+		in["sync/atomic.Store"+ty] = func(e *Engine, a []Value, c *callCtx) Value { e.atomicStore(a[0], a[1]); return Value{} }
 		in["sync/atomic.Add"+ty] = func(e *Engine, a []Value, c *callCtx) Value {
-			old := e.loadVia(a[0])
+			old := e.atomicLoad(a[0])
 			nv := e.intBinop(token.ADD, old, a[1], scalarInfo{ww, false, 2}, scalarInfo{ww, false, 2})
-			e.storeVia(a[0], nv)
+			e.atomicStore(a[0], nv)
 			return nv
 		}
 		in["sync/atomic.Swap"+ty] = func(e *Engine, a []Value, c *callCtx) Value {
-			old := e.loadVia(a[0])
-			e.storeVia(a[0], a[1])
+			old := e.atomicLoad(a[0])
+			e.atomicStore(a[0], a[1])
 			return old
 		}
 		in["sync/atomic.CompareAndSwap"+ty] = func(e *Engine, a []Value, c *callCtx) Value {
-			old := e.loadVia(a[0])
+			old := e.atomicLoad(a[0])
 			eq := e.intBinop(token.EQL, old, a[1], scalarInfo{ww, false, 2}, scalarInfo{ww, false, 2})
 			var ok bool
 			if eq.T != nil {
@@ -494,32 +566,32 @@ func registerIntrinsics(e *Engine) {
 				ok = eq.N != 0
 			}
 			if ok {
-				e.storeVia(a[0], a[2])
+				e.atomicStore(a[0], a[2])
 			}
 			return boolV(ok)
 		}
 		in["sync/atomic.And"+ty] = func(e *Engine, a []Value, c *callCtx) Value {
-			old := e.loadVia(a[0])
-			e.storeVia(a[0], e.intBinop(token.AND, old, a[1], scalarInfo{ww, false, 2}, scalarInfo{ww, false, 2}))
+			old := e.atomicLoad(a[0])
+			e.atomicStore(a[0], e.intBinop(token.AND, old, a[1], scalarInfo{ww, false, 2}, scalarInfo{ww, false, 2}))
 			return old
 		}
 		in["sync/atomic.Or"+ty] = func(e *Engine, a []Value, c *callCtx) Value {
-			old := e.loadVia(a[0])
-			e.storeVia(a[0], e.intBinop(token.OR, old, a[1], scalarInfo{ww, false, 2}, scalarInfo{ww, false, 2}))
+			old := e.atomicLoad(a[0])
+			e.atomicStore(a[0], e.intBinop(token.OR, old, a[1], scalarInfo{ww, false, 2}, scalarInfo{ww, false, 2}))
 			return old
 		}
 	}
-	in["sync/atomic.LoadPointer"] = func(e *Engine, a []Value, c *callCtx) Value { return e.loadVia(a[0]) }
-	in["sync/atomic.StorePointer"] = func(e *Engine, a []Value, c *callCtx) Value { e.storeVia(a[0], a[1]); return Value{} }
+	in["sync/atomic.LoadPointer"] = func(e *Engine, a []Value, c *callCtx) Value { return e.atomicLoad(a[0]) }
+	in["sync/atomic.StorePointer"] = func(e *Engine, a []Value, c *callCtx) Value { e.atomicStore(a[0], a[1]); return Value{} }
 	in["sync/atomic.SwapPointer"] = func(e *Engine, a []Value, c *callCtx) Value {
-		old := e.loadVia(a[0])
-		e.storeVia(a[0], a[1])
+		old := e.atomicLoad(a[0])
+		e.atomicStore(a[0], a[1])
 		return old
 	}
 	in["sync/atomic.CompareAndSwapPointer"] = func(e *Engine, a []Value, c *callCtx) Value {
-		old := e.loadVia(a[0])
+		old := e.atomicLoad(a[0])
 		if ptrEq(old, a[1]) {
-			e.storeVia(a[0], a[2])
+			e.atomicStore(a[0], a[2])
 			return boolV(true)
 		}
 		return boolV(false)
@@ -940,4 +1012,14 @@ func (e *Engine) deepCopy(v Value, t types.Type) Value {
 		return Value{O: &Iface{t: ifc.t, v: e.deepCopy(ifc.v, ifc.t)}}
 	}
 	return v
+}
+
+func (e *Engine) atomicLoad(addr Value) Value {
+	e.atomicSync(addr)
+	return e.rawLoad(addr)
+}
+
+func (e *Engine) atomicStore(addr, v Value) {
+	e.atomicSync(addr)
+	e.rawStore(addr, v)
 }
